@@ -419,6 +419,163 @@ def claim_list_meta_shape(cx, res, kf):
         res.vacuity.append(("parse_list_meta shape: %s reached" % k, n > 0))
 
 
+def claim_list_value_shape(cx, res, kf):
+    """C08/C01: parse_list (the value reader) stores every element, dot-initial name and dotted tail exactly as the nested parser
+    returned it, at the right place of the chain: one loop step from an arbitrary cursor state + base case."""
+
+    onm = None
+
+    def generic(e, st, fr, dbg, arr, info):
+        for need in ("pair", "have_value", "list"):
+            if need not in dbg:
+                raise Unsupported("parse_list: no local named `%s`" % need)
+        Null = EnumV("Value", venum(e, "Null"), {venum(e, "Null"): []})
+        st.heap["curcell"] = Agg("struct", "Cons", [Opaque("Value", "car0"), Null])
+        fr.locals[dbg["pair"]] = Ref(CUR_CELL)
+        fr.locals[dbg["list"]] = Opaque("Cons", "head")
+        hv = z3.Bool("hv_have_value")
+        fr.locals[dbg["have_value"]] = BoolV(hv)
+        info["hv"], info["Null"] = hv, Null
+
+    def value_stubs(eng):
+        base = shape_stubs(cx, eng)
+
+        def h_expect_value(engine, st, fr, callee, argv, m):
+            n = st.notes.get("nseq", 0) + 1
+            st.notes["nseq"] = n
+            nm = "item_%d" % n
+            is_err = z3.Bool(nm + "_err")
+            st.events.append(("expect", nm, is_err, K.depth_of(cx, st).e))
+            st.events.append(("into_inner", nm))
+            st.notes["peeked"] = None
+            return S.mk_result(engine, is_err, Opaque("Value", nm), Opaque("Error", "from:expect", {"kind": "callee"}))
+        return [(re.compile(r"^Parser::<[^>]*>::expect_value$"), h_expect_value),
+                (re.compile(r"^Value::is_\w+$"), lambda e, st, fr, c, a, m: e.sym_bool("valuepred"))] + base
+
+    eng = C.make_engine(cx, [], loop_mode="cut", timeout_s=200, max_paths=20000)
+    eng.stable_names = True
+    eng.stubs = value_stubs(eng) + S.COMBINATOR_STUBS + S.CORE_STUBS
+    fn = C.resolve_callee(cx, "Parser::<R>::parse_list")
+    if fn is None:
+        res.error = "parse_list not found"
+        return
+    info = {}
+    dbg = {}
+    for nm, pl in fn.debug_all:
+        mm = re.fullmatch(r"_(\d+)", pl)
+        if mm:
+            dbg.setdefault(nm, int(mm.group(1)))
+
+    def init(e, st, fr):
+        ref, cons, ov = K.parser_state(cx, e, st)
+        fr.locals[1] = ref
+        term = Int(z3.BitVec("terminator", 8), "u8")
+        fr.locals[2] = term
+        return cons + [z3.Or(term.e == ord(")"), term.e == ord("]"))]
+
+    def havoc(e, st, fr, bb):
+        st.notes["events_at_header"] = len(st.events)
+        st.notes["nseq"] = 0
+        info["arrival"] = st.notes["arrivals"][-1][1]["locals"]
+        info["uid"] = fr.uid
+        generic(e, st, fr, dbg, None, info)
+        return []
+    eng.havoc_hook = havoc
+    try:
+        terms = eng.explore(fn.name, init)
+    except Unsupported as e:
+        res.error = "unsupported: parse_list: %s" % e
+        return
+    res.absorb(eng)
+    arr, uid = info.get("arrival"), info.get("uid")
+    if arr is None:
+        res.must_be_unsat([], "parse_list: no element loop found", onm)
+        return
+    lst, hv0, p0 = arr.get(dbg["list"]), arr.get(dbg["have_value"]), arr.get(dbg["pair"])
+    base_ok = isinstance(p0, Ref) and p0.addr == ("L", uid, dbg["list"]) and isinstance(lst, Agg) and len(lst.fields) == 2 and is_null(eng, lst.fields[1]) \
+        and isinstance(hv0, BoolV) and z3.is_false(z3.simplify(hv0.e))
+    if not base_ok:
+        res.must_be_unsat([], "parse_list: at loop entry the cursor is not at the empty head cell with nothing stored (pair=%r list=%r have_value=%r)" % (p0, lst, hv0), onm)
+    Null, hv = info["Null"], info["hv"]
+    seen = {"first": 0, "append": 0, "dotname": 0, "tail": 0, "ret": 0}
+    VC = venum(eng, "Cons")
+    for t in terms:
+        pc = list(t.state.pc)
+        if t.kind == "PANIC":
+            res.must_be_unsat(pc, "parse_list: reachable panic `%s`" % t.info["msg"], onm)
+            continue
+        if t.kind not in ("LOOP_BACK", "RETURN"):
+            res.must_be_unsat(pc, "parse_list: exploration ended in %s" % t.kind, onm)
+            continue
+        st = t.state
+        ev = B.step_events(st)
+        cell = st.heap.get("curcell")
+        items = [e_[1] for e_ in ev if e_[0] == "into_inner"]
+        names = [e_[1] for e_ in ev if e_[0] == "dotname"]
+        r, _ = res.solve(pc + [hv])
+        can_true = r == z3.sat
+        r, _ = res.solve(pc + [z3.Not(hv)])
+        can_false = r == z3.sat
+        if can_true and can_false and (items or names):
+            res.must_be_unsat(pc, "parse_list: stores something without consulting have_value", onm)
+            continue
+        had = can_true and not can_false
+        why = None
+        if t.kind == "LOOP_BACK":
+            fr = st.frames[0]
+            if len(items) + len(names) != 1:
+                why = "a loop step stores %d nested values and %d names (expected exactly one)" % (len(items), len(names))
+            else:
+                X = Opaque("Value", (items or names)[0])
+                pair_now, hv_now = fr.locals.get(dbg["pair"]), fr.locals.get(dbg["have_value"])
+                if not (isinstance(hv_now, BoolV) and z3.is_true(z3.simplify(hv_now.e))):
+                    why = "have_value is not set after storing an element"
+                elif not had:
+                    seen["first" if items else "dotname"] += 1
+                    if not same(eng, cell, Agg("struct", "Cons", [X, Null])):
+                        why = "first element: current cell is %r, expected (%r . ())" % (cell, X)
+                    elif not (isinstance(pair_now, Ref) and pair_now.addr == CUR_CELL):
+                        why = "first element: cursor moved (%r)" % (pair_now,)
+                else:
+                    seen["append" if items else "dotname"] += 1
+                    exp = Agg("struct", "Cons", [Opaque("Value", "car0"), EnumV("Value", VC, {VC: [Agg("struct", "Cons", [X, Null])]})])
+                    if not same(eng, cell, exp):
+                        why = "further element: current cell is %r, expected %r" % (cell, exp)
+                    elif not (isinstance(pair_now, Ref) and pair_now.addr == CUR_CELL + (("f", 1), ("v", "Cons"), ("f", 0))):
+                        why = "further element: cursor is %r, not the fresh cell" % (pair_now,)
+        else:
+            kind, payload = K.classify_return(eng, t)
+            if kind == "ok":
+                is_list = isinstance(payload, EnumV) and payload.name == "Value" and K.concrete(payload.discr) == VC
+                if items:
+                    seen["tail"] += 1
+                    X = Opaque("Value", items[-1])
+                    if len(items) != 1 or names:
+                        why = "dotted tail: %d nested values / %d names read" % (len(items), len(names))
+                    elif not had:
+                        why = "dotted tail stored although nothing precedes the dot"
+                    elif not same(eng, cell, Agg("struct", "Cons", [Opaque("Value", "car0"), X])):
+                        why = "dotted tail: the last cell is %r, expected its cdr to be exactly the value read after the dot (%r)" % (cell, X)
+                    elif not is_list:
+                        why = "dotted tail: returns no list"
+                else:
+                    if not same(eng, cell, Agg("struct", "Cons", [Opaque("Value", "car0"), Null])):
+                        why = "list end: the chain was modified without reading anything (%r)" % (cell,)
+                    elif is_list != had:
+                        why = "list end: returns %s although have_value is %s" % ("a list" if is_list else "()", had)
+                if why is None and is_list:
+                    seen["ret"] += 1
+                    c = payload.variants[VC][0]
+                    if not is_op(c, "Cons", "head"):
+                        why = "returns %r, not the head cell" % (c,)
+            elif kind != "err":
+                why = "unclassified return %r" % (kind,)
+        if why:
+            res.must_be_unsat(pc, "parse_list: " + why, onm)
+    for k, n in seen.items():
+        res.vacuity.append(("parse_list shape: %s reached" % k, n > 0))
+
+
 def claim_vector_meta_shape(cx, res, kf):
     """C10/C11: parse_vector_meta pushes value and span information of the same nested datum, once each, onto the two
     vectors it finally returns."""
@@ -469,6 +626,13 @@ def claim_vector_meta_shape(cx, res, kf):
 
 
 CLAIMS = [
+    Claim("c08_list_value_shape", "C08", "quick", claim_list_value_shape,
+          "parse_list (value reader), one loop step from an arbitrary cursor state + base case (cells as aggregates in the engine's heap): "
+          "every element and dot-initial name is stored exactly as the nested parser returned it - in the head cell when nothing is "
+          "stored yet, else in a fresh cell linked behind, cursor advanced - and a dotted tail becomes the cdr of the last cell "
+          "UNCHANGED (no folding of nil / #nil / anything by position); the head cell is returned, `()` iff nothing was read",
+          "any list length, arbitrary reader and nested-parser behaviour, all option sets", configs=("fast",),
+          also=("C01", "C02", "C10", "C13"), confirm=("lists", "value_vs_datum", "tokens")),
     Claim("c10_list_meta_shape", "C10", "quick", claim_list_meta_shape,
           "parse_list_meta, one loop step from an arbitrary cursor state (loop cut; cells and span nodes as aggregates in the "
           "engine's heap, Cons / Value / SpanInfo constructors and accessors as stubs with their documented meaning): every "
